@@ -33,6 +33,18 @@ type lifeScen struct {
 	// StopInOutage: after the last round the server goes away for good and the application calls Stop()
 	// while the reconnection loop is retrying
 	StopInOutage bool `json:"stopinoutage,omitempty"`
+	// Transport: "" = TCP, "ws" = WebSocket (ws://)
+	Transport string `json:"transport,omitempty"`
+}
+
+// lifeLink is the server side of one connection (TCP stream or WebSocket)
+type lifeLink interface {
+	Expect(time.Duration) (*srv.Elem, error)
+	ReadElem(time.Duration) (*srv.Elem, error)
+	Write(string) error
+	Close()
+	Reset()
+	RestartStream()
 }
 
 type lifeSrv struct {
@@ -41,8 +53,11 @@ type lifeSrv struct {
 	addr    string
 	w       *tr.Writer
 	nconn   int32
-	cur     *srv.Conn
+	cur     lifeLink
 	curN    int
+	ws      bool
+	wss     *srv.WSServer
+	pend    map[string][2]interface{} // WebSocket: (n, outcome) of an accepted TCP connection, by remote address
 	smid    string
 	queue   []string // outcomes for the next attempts
 	resume  string
@@ -57,11 +72,72 @@ func (s *lifeSrv) listen() error {
 	for i := 0; i < 50; i++ {
 		s.l, err = net.Listen("tcp", s.addr)
 		if err == nil {
+			if s.ws {
+				s.wss = srv.ServeWSOn(lifeGate{s.l, s}, nil)
+			}
 			return nil
 		}
 		time.Sleep(10 * time.Millisecond)
 	}
 	return err
+}
+
+func (s *lifeSrv) closeListener() {
+	if s.ws && s.wss != nil {
+		s.wss.Close() // closes the listener, not the hijacked (established) WebSocket connections
+	}
+	s.l.Close()
+}
+
+// lifeGate sees the TCP connections of the WebSocket endpoint first: the outcome of an attempt is decided (and a
+// "reset" outcome played) before the HTTP upgrade.
+type lifeGate struct {
+	net.Listener
+	s *lifeSrv
+}
+
+func (g lifeGate) Accept() (net.Conn, error) {
+	for {
+		c, err := g.Listener.Accept()
+		if err != nil {
+			return nil, err
+		}
+		s := g.s
+		n := int(atomic.AddInt32(&s.nconn, 1))
+		out := s.next()
+		s.w.Emit(tr.Rec{"ev": "accept", "n": n, "outcome": out})
+		if out == "reset" {
+			s.w.Emit(tr.Rec{"ev": "neg", "n": n, "kind": "fail", "why": "reset"})
+			if t, ok := c.(*net.TCPConn); ok {
+				t.SetLinger(0)
+			}
+			c.Close()
+			continue
+		}
+		s.mu.Lock()
+		s.pend[c.RemoteAddr().String()] = [2]interface{}{n, out}
+		s.mu.Unlock()
+		return c, nil
+	}
+}
+
+func (s *lifeSrv) acceptLoopWS(wss *srv.WSServer) {
+	for {
+		select {
+		case <-wss.Done():
+			return
+		case wc := <-wss.Conns():
+			n, out := 0, "unexpected"
+			if wc.Raw != nil {
+				s.mu.Lock()
+				if p, ok := s.pend[wc.Raw.RemoteAddr().String()]; ok {
+					n, out = p[0].(int), p[1].(string)
+				}
+				s.mu.Unlock()
+			}
+			go s.serve(newWSLink(wc), n, out)
+		}
+	}
 }
 
 func (s *lifeSrv) next() string {
@@ -76,6 +152,10 @@ func (s *lifeSrv) next() string {
 }
 
 func (s *lifeSrv) acceptLoop() {
+	if s.ws {
+		s.acceptLoopWS(s.wss)
+		return
+	}
 	for {
 		c, err := s.l.Accept()
 		if err != nil {
@@ -88,7 +168,7 @@ func (s *lifeSrv) acceptLoop() {
 	}
 }
 
-func (s *lifeSrv) serve(conn *srv.Conn, n int, out string) {
+func (s *lifeSrv) serve(conn lifeLink, n int, out string) {
 	w := s.w
 	fail := func(why string) {
 		w.Emit(tr.Rec{"ev": "neg", "n": n, "kind": "fail", "why": why})
@@ -229,7 +309,7 @@ up:
 	}
 }
 
-func (s *lifeSrv) sessionElem(conn *srv.Conn, n int, e *srv.Elem) {
+func (s *lifeSrv) sessionElem(conn lifeLink, n int, e *srv.Elem) {
 	if e.Kind == "elem" && e.Local == "message" {
 		s.w.Emit(tr.Rec{"ev": "clisend", "n": n, "tag": e.Attr["id"]})
 	}
@@ -250,13 +330,23 @@ func lifeRunOne(w *tr.Writer, tid int, raw json.RawMessage, c *common) error {
 	curRun.Store(run)
 	defer curRun.Store(nil)
 	before := libGoroutines()
-	w.Emit(tr.Rec{"ev": "reset", "tid": tid, "sm": sc.SM, "ka": sc.KaMs})
+	tp := "tcp"
+	if sc.Transport == "ws" {
+		tp = "ws"
+	}
+	w.Emit(tr.Rec{"ev": "reset", "tid": tid, "sm": sc.SM, "ka": sc.KaMs, "transport": tp})
 
 	l0, err := net.Listen("tcp", "127.0.0.1:0")
 	if err != nil {
 		return err
 	}
-	s := &lifeSrv{addr: l0.Addr().String(), w: w, sm: sc.SM, upCh: make(chan int, 16), l: l0, pings: map[int]int{}}
+	s := &lifeSrv{addr: l0.Addr().String(), w: w, sm: sc.SM, upCh: make(chan int, 16), l: l0, pings: map[int]int{},
+		ws: sc.Transport == "ws", pend: map[string][2]interface{}{}}
+	dialAddr := s.addr
+	if s.ws {
+		s.wss = srv.ServeWSOn(lifeGate{l0, s}, nil)
+		dialAddr = "ws://" + s.addr + "/xmpp"
+	}
 	go s.acceptLoop()
 
 	router := xmpp.NewRouter()
@@ -270,7 +360,7 @@ func lifeRunOne(w *tr.Writer, tid int, raw json.RawMessage, c *common) error {
 		ka = time.Duration(sc.KaMs) * time.Millisecond
 	}
 	cfg := &xmpp.Config{
-		TransportConfiguration: xmpp.TransportConfiguration{Address: s.addr, ConnectTimeout: 1},
+		TransportConfiguration: xmpp.TransportConfiguration{Address: dialAddr, ConnectTimeout: 1, Domain: "localhost"},
 		Jid:                    "test@localhost/res", Credential: xmpp.Password("secret"), Insecure: true,
 		StreamManagementEnable: sc.SM, KeepaliveInterval: ka, ConnectTimeout: 1,
 	}
@@ -313,7 +403,7 @@ func lifeRunOne(w *tr.Writer, tid int, raw json.RawMessage, c *common) error {
 			}
 		}
 		atomic.StoreInt32(&s.closing, 1)
-		s.l.Close()
+		s.closeListener()
 		s.mu.Lock()
 		if s.cur != nil {
 			s.cur.Close()
@@ -347,7 +437,7 @@ func lifeRunOne(w *tr.Writer, tid int, raw json.RawMessage, c *common) error {
 		listening := true
 		closeL := func() {
 			if listening {
-				s.l.Close()
+				s.closeListener()
 				listening = false
 			}
 		}
@@ -371,7 +461,7 @@ func lifeRunOne(w *tr.Writer, tid int, raw json.RawMessage, c *common) error {
 			if rd.Drop == "graceful" {
 				prev.Write("</stream:stream>")
 				// a server that ends the stream closes the connection shortly after
-				go func(c *srv.Conn) { time.Sleep(100 * time.Millisecond); c.Close() }(prev)
+				go func(c lifeLink) { time.Sleep(100 * time.Millisecond); c.Close() }(prev)
 			} else {
 				prev.Reset()
 			}
@@ -470,7 +560,7 @@ func lifeRunOne(w *tr.Writer, tid int, raw json.RawMessage, c *common) error {
 	if sc.StopInOutage && !stopped {
 		w.Emit(tr.Rec{"ev": "round", "i": len(sc.Rounds) + 1, "drop": "abrupt", "attempts": []string{"refuse", "refuse"}, "resume": "accept"})
 		att0 := run.get("sm.attempt")
-		s.l.Close()
+		s.closeListener()
 		s.mu.Lock()
 		prev, prevN := s.cur, s.curN
 		s.mu.Unlock()
@@ -503,6 +593,16 @@ func runLife(args []string) error {
 		tid++
 		if !*kaOnly {
 			scens = append(scens, tidScen{tid, ln})
+		}
+		if i%4 == 1 && !*kaOnly {
+			// the same behaviour over the WebSocket transport
+			var sc lifeScen
+			if json.Unmarshal(ln, &sc) == nil {
+				sc.Transport = "ws"
+				b, _ := json.Marshal(sc)
+				tid++
+				scens = append(scens, tidScen{2000000 + tid, b})
+			}
 		}
 		if i%9 == 0 || *kaOnly {
 			var sc lifeScen
